@@ -321,6 +321,7 @@ func (db *DB) Merge() error {
 				if entry == nil {
 					break
 				}
+				verifYield("merge.entry")
 
 				var skipEntry bool
 
@@ -361,11 +362,18 @@ func (db *DB) Merge() error {
 			}
 		}
 
+		verifYield("merge.beforeRewrite")
 		if err := db.reWriteData(pendingMergeEntries); err != nil {
 			f.rwManager.Close()
 			return err
 		}
 
+		verifYield("merge.beforeRemove")
+		if h, _, herr := verifFS("remove", db.getDataPath(int64(pendingMergeFId)), 0, nil); h {
+			db.isMerging = false
+			f.rwManager.Close()
+			return fmt.Errorf("when merge err: %s", herr)
+		}
 		if err := os.Remove(db.getDataPath(int64(pendingMergeFId))); err != nil {
 			db.isMerging = false
 			f.rwManager.Close()
@@ -567,6 +575,9 @@ func (db *DB) buildBPTreeRootIdxes(dataFileIds []int) error {
 	for i := 0; i < len(dataFileIds[0:dataFileIdsSize-1]); i++ {
 		off = 0
 		path := db.getBPTRootPath(int64(dataFileIds[i]))
+		if h, _, herr := verifFS("open", path, 0, nil); h {
+			return herr
+		}
 		fd, err := os.OpenFile(path, os.O_CREATE|os.O_RDWR, 0644)
 		if err != nil {
 			return err
@@ -877,6 +888,7 @@ func (db *DB) managed(writable bool, fn func(tx *Tx) error) error {
 		return err
 	}
 
+	verifYield("managed.afterBegin")
 	if err = fn(tx); err != nil {
 		if errRollback := tx.Rollback(); errRollback != nil {
 			return errRollback
@@ -884,6 +896,7 @@ func (db *DB) managed(writable bool, fn func(tx *Tx) error) error {
 		return err
 	}
 
+	verifYield("managed.beforeCommit")
 	if err = tx.Commit(); err != nil {
 		if errRollback := tx.Rollback(); errRollback != nil {
 			return errRollback
